@@ -75,6 +75,7 @@ func cmdSweep(args []string) {
 	verbose := fs.Bool("v", false, "print scripts of failed obligations")
 	kinds := fs.String("kinds", "", "extra obligation kinds (comma separated)")
 	dump := fs.String("dump", "", "directory to dump scripts of failed obligations")
+	lem := fs.String("l", "", "regexp on lemma names (verified in addition)")
 	fs.Parse(args)
 	t0 := time.Now()
 	e := mustEnv(*repo)
@@ -104,6 +105,14 @@ func cmdSweep(args []string) {
 		}(i, n)
 	}
 	wg.Wait()
+	if *lem != "" {
+		lre := regexp.MustCompile(*lem)
+		for _, lm := range e.lemmas {
+			if lre.MatchString(lm.Name) {
+				results = append(results, e.verifyLemma(lm))
+			}
+		}
+	}
 	fmt.Fprintf(os.Stderr, "generated in %.1fs\n", time.Since(t0).Seconds())
 	solveAll(results, solveCfg{quickS: 3, fullS: *to, workers: 16})
 	nd, nf := 0, 0
@@ -134,7 +143,3 @@ func cmdSweep(args []string) {
 	fmt.Printf("functions=%d discharged=%d failed=%d wall=%.1fs\n", len(results), nd, nf, time.Since(t0).Seconds())
 }
 
-func cmdCheck(args []string) {
-	fmt.Fprintln(os.Stderr, "check: not implemented yet")
-	os.Exit(2)
-}
